@@ -551,16 +551,50 @@ func (w *World) branchExec(e Event, project bool) (Result, string, *PState) {
 	return res, d, ps
 }
 
-// ExecDet executes e for real and, before that, k times on sibling branches of the same state; all executions must agree.
+// decoy runs, on a discarded branch, a continuation that leaves the process in a state shaped by ANOTHER store state: the
+// event itself followed by a long block gap, both end blockers, a genesis export and the params query (variant 1), or a
+// change of the module parameters followed by reads (variant 0).  Anything a replay
+// can see of it (memoised params, cached decoded records, package-level variables) is process memory, not state.
+func (w *World) decoy(e Event, variant int) {
+	saved := w.Ctx
+	don := map[string]math.Int{}
+	for k, v := range w.Donated {
+		don[k] = v
+	}
+	defer func() { w.Ctx = saved; w.Donated = don }()
+	defer func() { _ = recover() }()
+	cctx, _ := saved.CacheContext()
+	w.Ctx = cctx.WithEventManager(sdk.NewEventManager())
+	if variant == 0 {
+		// other module parameters, then reads
+		w.Exec(Event{Ev: "GovParams", Signer: "authority", Delay: 7, Interval: 1, Last: w.Ctx.BlockTime().Unix() - 5})
+		_, _ = w.QS.Params(w.Ctx, &types.QueryParamsRequest{})
+		_ = w.App.AllianceKeeper.ExportGenesis(w.Ctx)
+		return
+	}
+	w.Exec(e)
+	w.Ctx = w.Ctx.WithBlockTime(w.Ctx.BlockTime().Add(secs(1000))).WithBlockHeight(w.Ctx.BlockHeight() + 1)
+	w.Exec(Event{Ev: "StakingEndBlock"})
+	w.Exec(Event{Ev: "EndBlock"})
+	_ = w.App.AllianceKeeper.ExportGenesis(w.Ctx)
+	_, _ = w.QS.Params(w.Ctx, &types.QueryParamsRequest{})
+}
+
+// ExecDet executes e for real and, before that, k times on sibling branches of the same state (with a decoy continuation of
+// a different state in between); all executions must agree.
 func (w *World) ExecDet(e Event, k int) Result {
 	if k <= 0 || e.Ev == "BeginBlock" {
 		return w.Exec(e)
 	}
 	var digests []string
 	for i := 0; i < k; i++ {
+		if i > 0 {
+			w.decoy(e, i%2)
+		}
 		_, d, _ := w.branchExec(e, false)
 		digests = append(digests, d)
 	}
+	w.decoy(e, 1)
 	// the real execution, measured the same way
 	saved := w.Ctx
 	w.Ctx = saved.WithEventManager(sdk.NewEventManager())
